@@ -11,13 +11,15 @@ RULE = ("cases: every shape of rank 0..4 with extents 1..5 (rank 4: extents <= 4
         "t[idx]=v and which storage cells changed), every index out of range in exactly one dimension with the other coordinates ranging over all "
         "valid values (out-of-range values d, d+1, [2d+1, 2^40, usize::MAX]; about half of them keep the flattened offset inside the storage - the "
         "aliasing case), iter/iter_mut/into_iter order after writing code(idx) through IndexMut; every shape with extents 0..5: from_vec/from_slice "
-        "with length n, n+1, n-1, 0, new, read; == over all pairs of equal-rank shapes with equal element count (same data), same shape with one "
+        "with length n, n+1, n-1, 0, new, read, plus 17 shapes with extents up to usize::MAX whose product does not fit usize (must be rejected: "
+        "panic:overflow in the checked build) or fits but is far from the length; == over all pairs of equal-rank shapes with equal element count (same data), same shape with one "
         "element changed, different counts; Writable bytes and Writer -> bytes -> chunked Reader -> Tensor::read round trip for i64 (incl. MIN/MAX) "
-        "and String elements. non-trivial = distinct in-domain case whose shape has more than one element")
+        "and String elements; {:?} output of i64 tensors. non-trivial = distinct in-domain case whose shape has more than one element")
 ASSUMPTIONS = [
     "the Lean model of rlib_tensor is hand-written; it is tied to the code by running both on the same cases",
     "Tensor<T, D> needs the rank at compile time: the correspondence covers ranks 0..4 (the theorems cover every rank)",
-    "usize overflow of dims.iter().product() is not modelled (extents are small in every case)",
+    "usize arithmetic is modelled as the checked build executes it (overflow = panic): get_index through getIndexU, the constructors' product through prodU; "
+    "an unchecked build wraps instead (from_vec([2^32, 2^32], vec![]) is accepted there) - outside the property's stated quantifier, see docs/notes/C19.md",
     "element rendering/parsing (i64, String) is rlib_io's (C08/C09); the model takes the rendering of an element as a parameter",
 ]
 MANIFEST = {
@@ -27,9 +29,10 @@ MANIFEST = {
              "the flattened offset would be inside the storage; constructors reject zero extents / wrong lengths; the odometer of Writable terminates "
              "within product rounds and emits the elements in storage order separated by one blank inside the last dimension and by k newlines where "
              "k trailing blocks end; tokenising the written text gives the elements back, so write -> read is the identity; == holds iff shape and "
-             "elements agree. The hand-written model is tied to rlib_tensor by a differential correspondence run on every check."),
+             "elements agree; with every usize operation checked, get_index never overflows when the product fits usize and the constructors reject every "
+             "shape whose product does not; the Debug output is the same walk with bracket separators. The hand-written model is tied to rlib_tensor by a differential correspondence run on every check."),
     "note": ("Trusted: Lean kernel, axioms propext/Classical.choice/Quot.sound, the hand-written model (checked against the code on the generated cases "
-             "only, ranks 0..4, extents <= 5), harness and driver plumbing. usize overflow of the product is outside the model."),
+             "only, ranks 0..4, extents <= 5), harness and driver plumbing. Unchecked (wrapping) usize arithmetic is outside the model."),
     "technique": "Lean 4 proof of a hand-written model + differential correspondence check against the Rust crate",
     "design_ref": "DESIGN.md §6 C19",
 }
